@@ -59,7 +59,7 @@ var constructors = []tyCons{
 
 // extra single types that do not fit the atom×constructor product.
 var extraTypes = []string{
-	"interface{ @{~/a/foo}.I }", "interface{ LocI; @{~/a/foo}.I }", "interface{ @{io}.Reader; Close() error }",
+	"interface{ @{~/a/foo}.I }", "interface{ LocI; @{~/a/foo}.I }", "interface{ @{context}.Context; Tag() string }", "interface{ @{io}.Reader; Close() error }",
 	"func()", "func() error", "struct{}", "interface{}", "[]func(@{~/a/foo}.T) @{~/b/foo}.T",
 	"map[@{~/a/foo}.T]@{~/b/foo}.T", "func(@{context}.Context, ...@{~/a/foo}.T) (@{~/b/foo}.T, error)",
 	"@{~/b/foo}.G[@{~/a/foo}.T]", "Box[Box[@{~/a/foo}.T]]", "map[string]map[string][]*@{~/a/foo}.T",
@@ -357,6 +357,10 @@ func impPkg(dir string, sel []string, mode string) *SrcPkg {
 			if i == 0 {
 				alias = "first"
 			}
+		case "alias-as-first": // a later import carries an alias equal to the name the first, unaliased one keeps
+			if i > 0 && depName(sel[0]) != depName(key) {
+				alias = depName(sel[0])
+			}
 		case "alias-dirname":
 			if b := strings.ToLower(key[strings.LastIndex(key, "/")+1:]); validIdent(b) && b != depName(key) {
 				alias = b
@@ -406,6 +410,9 @@ func scopeImp(k int, aliasModes bool) []*SrcPkg {
 				}
 				emit("alias-first")
 				emit("alias-dirname")
+				if len(sel) > 1 {
+					emit("alias-as-first")
+				}
 			}
 		}
 		if len(sel) == k {
@@ -440,6 +447,7 @@ func scopeGen() []*SrcPkg {
 		{"~int | ~string", "union-basic"}, {"interface{ comparable; ~int | ~string }", "cmp+union"}, {"interface{ Num; ~int }", "named+core"}, {"int | string", "union-plain"}, {"Num", "named-union"}, {"@{~/a/foo}.Ord", "dep-named-union"},
 		{"@{~/a/foo}.T | @{~/a/foo}.B", "dep-union"}, {"interface{ comparable; String() string }", "cmp+method"},
 		{"interface{ ~int; String() string }", "core+method"}, {"[]int | []string", "union-slices"}, {"~[]byte", "tilde-slice"},
+		{"interface{ Loc }", "embeds-named-noniface"}, {"interface{ @{time}.Duration }", "embeds-std-noniface"},
 		{"LocI", "local-iface"}, {"@{~/a/foo}.I", "dep-iface"}, {"Loc | Int", "local-union"}, {"interface{ *Loc }", "ptr-term"},
 	}
 	uses := []struct{ sig, tag string }{
@@ -452,7 +460,7 @@ func scopeGen() []*SrcPkg {
 		for _, c := range constraints {
 			for ui, u := range uses {
 				// full product only for the canonical spelling; other spellings use the first two uses
-				if sp != "T" && ui > 1 {
+				if sp != "T" && ui > 1 && ui != 4 {
 					continue
 				}
 				if (sp == "mock" || sp == "sync") && (c.tag != "any" || ui > 0) {
